@@ -97,6 +97,8 @@ def task(W, payload):
     if variant == "rename":
         # two mixing-carrying stratifications and an infection flow: the renaming below REVERSES the alphabetical order of the stratification names
         opts.mixing_pair_bias = 0.6; opts.force_infection = True
+    if variant == "perm":
+        opts.inexact_split_bias = 0.4    # splits that sum to one only within the API's tolerance: reordering the strata must still only permute the results
     if variant == "perm" and (payload["index"] // len(VARIANTS)) % 2 == 1:
         opts.force_strat = True      # (the shared-object half of the permutation variant needs a stratification to share)
     if variant in ("order", "swap"): opts.allow_post_flows = False
